@@ -27,7 +27,8 @@ void buildArgv(const Desc& d, Vec<Str>& av) {
     if (c.verbose == 1) av.push_back("-v");
     if (c.verbose == 2) av.push_back("-vv");
     if (c.color) av.push_back("-c");
-    if (c.repeat > 0) { if (d.pi("repeat_attached", 1)) av.push_back(sfmt("-r%d", c.repeat)); else { av.push_back("-r"); av.push_back(sfmt("%d", c.repeat)); } }
+    if (c.repeat == 2 && d.pi("repeat_attached", 1) == 2) av.push_back("-r");        // a count-less -r means twice; what follows it is an option of its own
+    else if (c.repeat > 0) { if (d.pi("repeat_attached", 1)) av.push_back(sfmt("-r%d", c.repeat)); else { av.push_back("-r"); av.push_back(sfmt("%d", c.repeat)); } }
     if (c.reverse) av.push_back("-b");
     if (c.shuffle == 1) { if (d.pi("shuffle_attached", 1)) av.push_back(sfmt("-s%llu", (unsigned long long)c.shuffleSeed)); else { av.push_back("-s"); av.push_back(sfmt("%llu", (unsigned long long)c.shuffleSeed)); } }
     if (c.shuffle == 2) av.push_back("-s");
@@ -328,8 +329,10 @@ void generate(uint64_t seed, const Str& profile, Desc& d, bool exceptions) {
 
     // configuration
     if ((profile == "pointers" || profile == "lifecycle") && cfg.chance(1, 8)) d.p["static_wrapper"] = cfg.range(1, 2);
+    if ((profile == "pointers" || profile == "lifecycle" || profile == "selection") && cfg.chance(1, 8)) d.p["prologue"] = cfg.range(1, 2);
     d.p["repeat"] = cfg.chance(1, 3) ? cfg.range(1, burst ? 2 : 5) : 0;
     d.p["repeat_attached"] = (int64_t)cfg.below(2);
+    if (d.pi("repeat") == 2 && cfg.chance(1, 2)) d.p["repeat_attached"] = 2;
     if (f.order) {
         d.p["reverse"] = cfg.chance(1, 5);
         unsigned s = (unsigned)cfg.below(10);
